@@ -218,13 +218,22 @@ func (its *TransactionDatatype) ExecuteRemoteTransactionWithCtx(
 	currentTxCtx *TransactionContext,
 	obtainList bool,
 ) ([]interface{}, errors.OrdaError) {
+	// every operation is decoded before the unit is begun: a unit that cannot be decoded applies nothing.
+	ops := make([]iface.Operation, 0, len(transaction))
+	for _, modelOp := range transaction {
+		op, err := operations.DecodeModelOperation(modelOp)
+		if err != nil {
+			return nil, errors.DatatypeTransaction.New(its.L(), err.Error())
+		}
+		ops = append(ops, op)
+	}
 	var txCtx *TransactionContext
-	if len(transaction) > 1 {
-		txOp, ok := operations.ModelToOperation(transaction[0]).(*operations.TransactionOperation)
+	if len(ops) > 1 {
+		txOp, ok := ops[0].(*operations.TransactionOperation)
 		if !ok {
 			return nil, errors.DatatypeTransaction.New(its.L(), "no transaction operation")
 		}
-		if int(txOp.GetNumOfOps()) != len(transaction) {
+		if int(txOp.GetNumOfOps()) != len(ops) {
 			return nil, errors.DatatypeTransaction.New(its.L(), "not matched number of operations")
 		}
 		txCtx = its.BeginTransaction(txOp.GetBody().Tag, currentTxCtx, false)
@@ -233,11 +242,10 @@ func (its *TransactionDatatype) ExecuteRemoteTransactionWithCtx(
 				// _ = log.OrdaError(err)
 			}
 		}()
-		transaction = transaction[1:]
+		ops = ops[1:]
 	}
 	var opList []interface{}
-	for _, modelOp := range transaction {
-		op := operations.ModelToOperation(modelOp)
+	for _, op := range ops {
 		if obtainList {
 			opList = append(opList, op.ToJSON())
 		}
